@@ -14,34 +14,51 @@ def c17():
     t0 = time.time()
     vlib.build(("vworker",))
     v = vlib.Verdict("C17")
-    w = vlib.Worker()
-    r = w.call({"op": "modes"})
-    w.stop()
-    if "table" not in r:
-        v.violation("the Modality methods could not be tabulated: " + json.dumps(r)[:300], {"reply": r}, {})
-        vlib.write_evidence("C17", "model_checking", {"evaluations": 1, "distinct_nontrivial": 2, "rule": "n/a", "samples": [r]}, time.time() - t0, 1)
-        return v.finish()
-    t = r["table"]
+    rng = random.Random(vlib.seed())
+    # the relation must be a fixed relation: the table is recorded several times, each in a FRESH process, with the order queries asked first in
+    # a different order (natural, reversed, weak-to-strong first, seeded shuffles); the laws are checked on every table
+    allq = ["%s:%s:%s" % (k, a, b) for k in ("down", "up") for a in MODES for b in MODES]
+    orders = {"natural": [], "reversed": list(reversed(allq)), "weak-first": sorted(allq, key=lambda q: (MODES.index(q.split(":")[1]) if q.startswith("down") else -MODES.index(q.split(":")[1])), reverse=True)}
+    for k in range(3 if vlib.tier() == "quick" else 24):
+        o = list(allq)
+        rng.shuffle(o)
+        orders["shuffle%d" % k] = o
     nested = lambda d, sep: {a: {b: d[a + sep + b] for b in MODES} for a in MODES}
     doc = ["r", "rep", "replicable", "m", "mul", "multicast", "a", "aff", "affine", "l", "lin", "linear"]
-    table = {"down": nested(t["down"], ">"), "up": nested(t["up"], ">"), "eq": nested(t["eq"], "="), "weak": t["weak"], "contr": t["contr"],
-             "full": t["full"], "short": t["short"], "spell": {s: t["spell"][s] for s in doc if s in t["spell"]},
-             "undoc": {("u%d" % i): x for i, (s, x) in enumerate(sorted(t["spell"].items())) if s.lower() not in doc}}
+    states = gen = 0
+    tables = {}
     with vlib.Work("c17") as work:
-        path = work.path("modes.json")
-        json.dump(table, open(path, "w"))
-        res = vlib.tlc("Modes", MODES_CFG, env={"VERIF_MODES": path}, workers=1, timeout=120, work=work)
-    if res["violated"]:
-        st = vlib.last_state_vars(res["out"], ["m", "k", "j"])
-        v.violation("law %s fails on the recorded mode table at %s" % (res["violated"], st), {"table": table, "law": res["violated"], "tuple": st},
-                    {"law": res["violated"]})
-    elif not res["ok"]:
-        v.harness_errors.append("TLC: " + str(res["error_text"])[:500])
-    cov = {"states": max(1, res["distinct"]), "transitions": max(1, res["generated"]), "traces_validated_against_impl": 1,
-           "samples": [{"recorded_table": table}], "exhaustive": True, "tuples": 64,
+        for oname, order in orders.items():
+            w = vlib.Worker()
+            r = w.call({"op": "modes", "order": order})
+            w.stop()
+            if "table" not in r:
+                v.violation("the Modality methods could not be tabulated (%s): %s" % (oname, json.dumps(r)[:300]), {"reply": r}, {})
+                continue
+            t = r["table"]
+            table = {"down": nested(t["down"], ">"), "up": nested(t["up"], ">"), "eq": nested(t["eq"], "="), "weak": t["weak"], "contr": t["contr"],
+                     "full": t["full"], "short": t["short"], "spell": {s: t["spell"][s] for s in doc if s in t["spell"]},
+                     "undoc": {("u%d" % i): x for i, (s, x) in enumerate(sorted(t["spell"].items())) if s.lower() not in doc}}
+            tables[oname] = table
+            if t.get("unstable"):
+                v.violation("the order relation answers the same question differently within one process (query order %s): %s" % (oname, t["unstable"][:6]),
+                            {"table": table, "order": order, "unstable": t["unstable"]}, {"law": "Stable"})
+            path = work.path("modes_%s.json" % oname)
+            json.dump(table, open(path, "w"))
+            res = vlib.tlc("Modes", MODES_CFG, env={"VERIF_MODES": path}, workers=1, timeout=120, work=work)
+            states += res["distinct"]; gen += res["generated"]
+            if res["violated"]:
+                st = vlib.last_state_vars(res["out"], ["m", "k", "j"])
+                v.violation("law %s fails on the mode table recorded with query order '%s' at %s" % (res["violated"], oname, st),
+                            {"table": table, "law": res["violated"], "tuple": st, "order": order}, {"law": res["violated"]})
+            elif not res["ok"]:
+                v.harness_errors.append("TLC: " + str(res["error_text"])[:500])
+    cov = {"states": max(1, states), "transitions": max(1, gen), "traces_validated_against_impl": len(tables),
+           "samples": [{"recorded_table": tables.get("natural")}], "exhaustive": True, "tuples": 64, "query_orders": list(orders),
            "laws": MODES_CFG.split("INVARIANTS ")[1].split("\n")[0].split()}
     vlib.write_evidence("C17", "model_checking", cov, time.time() - t0, len(v.violations),
-                        ["the table is recorded from the real methods of types/modality.go in this run; the laws are checked by TLC on that table for all 64 triples"])
+                        ["the tables are recorded from the real methods of types/modality.go in this run, each in a fresh process and with the order queries first asked in a "
+                         "different order; the laws are checked by TLC on each table for all 64 triples"])
     return v.finish()
 
 
